@@ -109,6 +109,24 @@ theorem right_responder_installs_certificate_addresses (n : Node) (via : UNode) 
   rw [hl]
   simp [hr, hs, hw, initiatorHostInfo]
 
+/-- Without a completed Machine result nothing is installed: a Machine error on stage 2 (recoverable or fatal — e.g. the
+verifier refusing a certificate that a config reload has just blocklisted, C05) and a stage 1 the Machine rejects
+leave the main hostmap untouched. Which certificates the verifier accepts is the Machine's business (C05); the
+correspondence stream checks on the real code that it consults the CURRENT trust store (`block` op, class
+`c09-complete-with-untrusted-cert`). -/
+theorem machine_error_installs_nothing (n : Node) (via : UNode) (idx : Nat) (failed : Bool) :
+    (n.continueHandshake via idx (.err failed)).1.main = n.main := by
+  unfold Node.continueHandshake
+  split
+  · rfl
+  · split
+    · rfl
+    · dsimp only
+      split <;> rfl
+
+theorem rejected_stage1_installs_nothing (n : Node) (via : UNode) (pkt : Handle) (rv now : Nat) :
+    n.beginHandshake via pkt none rv now = (n, {}) := rfl
+
 -- non-vacuity: a concrete history in which a responder installs a tunnel for address 2 of a two-address peer
 def cfg0 : Cfg := { node := 0, myAddrs := [1], hasV1 := false, hasV2 := true, retries := 3, interval := 100000000 }
 def c0 : Completed := { certAddrs := [2, 5], certVer := 2, remoteIndex := 2001, time := 7 }
